@@ -447,7 +447,10 @@ func mapClasses(mt *types.Map) (hk string, hs Sort, vk string, vs Sort) {
 	ks := mapKeySort(mt.Key())
 	key := typeKey(mt.Key()) + "=>" + typeKey(mt.Elem())
 	noteClass("MV:"+key, mt.Elem())
-	return "MH:" + key, SArr(SRef, SArr(ks, SBool)), "MV:" + key, SArr(SRef, SArr(ks, SortOf(mt.Elem())))
+	hs, vs = SArr(SRef, SArr(ks, SBool)), SArr(SRef, SArr(ks, SortOf(mt.Elem())))
+	regSort("MH:"+key, func() Sort { return hs })
+	regSort("MV:"+key, func() Sort { return vs })
+	return "MH:" + key, hs, "MV:" + key, vs
 }
 
 func mapKeySort(t types.Type) Sort { return SortOf(t) }
